@@ -67,7 +67,7 @@ func judge(c *c20Case, o c20Outcome) (map[string]any, string) {
 			text = o.Stdout
 		}
 		if namesInput(c, text) == "" {
-			return map[string]any{"pred": "reject-without-naming-input", "prog": c.Prog, "msg": msgHead(strings.TrimPrefix(strings.TrimPrefix(strings.TrimSpace(errorPart(text)), "ERROR>>> "), "Error: "))},
+			return map[string]any{"pred": "reject-without-naming-input", "prog": c.Prog, "type": c.Type, "msg": msgHead(strings.TrimPrefix(strings.TrimPrefix(strings.TrimSpace(errorPart(text)), "ERROR>>> "), "Error: "))},
 				"rejected (exit status 1), but the message names neither the file nor a line, command or object of the input: " + trunc(strings.TrimSpace(text), 300)
 		}
 	}
@@ -119,6 +119,24 @@ func corpusCases() []*c20Case {
 		mk("IOS", "garbage info file", "", map[string]string{"code/router": "", "code/router.info": "NO_JSON\n"}),
 		mk("IOS", "garbage info file, opening brace", "", map[string]string{"code/router": "", "code/router.info": "{garbage"}),
 		mk("IOS", "info file null", "", map[string]string{"code/router": "", "code/router.info": "null"}),
+		func() *c20Case {
+			c := mk("IOS", "info file is a directory", "", map[string]string{"code/router": ""})
+			delete(c.Files, "code/router.info")
+			c.Dirs = []string{"code/router.info"}
+			return c
+		}(),
+		func() *c20Case {
+			c := mk("IOS", "info file is a link to itself", "", map[string]string{"code/router": ""})
+			delete(c.Files, "code/router.info")
+			c.Links = map[string]string{"code/router.info": "router.info"}
+			return c
+		}(),
+		func() *c20Case {
+			c := mk("IOS", "info file is a dangling link, IPv6 info file is garbage", "", map[string]string{"code/router": "", "code/ipv6/router.info": "{garbage"})
+			delete(c.Files, "code/router.info")
+			c.Links = map[string]string{"code/router.info": "nowhere"}
+			return c
+		}(),
 		mk("PAN-OS", "empty <devices> plus raw vsys", "", map[string]string{"code/router": "<config><devices></devices></config>",
 			"code/router.raw": `<config><devices><entry name="x"><vsys><entry name="vsys1"></entry></vsys></entry></devices></config>`}),
 		mk("PAN-OS", "cyclic address-groups", "", map[string]string{"code/router": `<config><devices><entry name="d"><vsys><entry name="vsys1"><rulebase><security><rules><entry name="r1"><action>allow</action><from><member>any</member></from><to><member>any</member></to><source><member>g0</member></source><destination><member>any</member></destination><service><member>any</member></service><application><member>any</member></application></entry></rules></security></rulebase><address-group><entry name="g0"><static><member>g1</member></static></entry><entry name="g1"><static><member>g0</member></static></entry></address-group></entry></vsys></entry></devices></config>`}),
@@ -363,6 +381,8 @@ func runC20(ctx *Ctx) *Result {
 	res.CountN("tests-read", len(bases))
 	var wrappers []*c20Case
 	wrapperCases(func(c *c20Case) { wrappers = append(wrappers, c) })
+	simCases(func(c *c20Case) { wrappers = append(wrappers, c) })
+	missingApproveCases(func(c *c20Case) { wrappers = append(wrappers, c) })
 
 	// pass 1: size of the family (cases are built lazily; nothing is kept)
 	family := 0
@@ -422,7 +442,21 @@ func runC20(ctx *Ctx) *Result {
 		dump, _ = os.Create(p)
 		defer dump.Close()
 	}
-	sink := func(c *c20Case, o c20Outcome) {
+	var envRetry []*c20Case
+	retrying := false
+	var sink func(c *c20Case, o c20Outcome)
+	sink = func(c *c20Case, o c20Outcome) {
+		if c.Class == "do-approve-sim" && envTrouble(o) {
+			// pseudo terminals exhausted, login of the simulated device timed out under load: not a verdict on the input;
+			// once more, alone, at the end; what still shows trouble is counted as inconclusive
+			if !retrying {
+				envRetry = append(envRetry, c)
+				return
+			}
+			res.Count("inconclusive:environment trouble with the simulated device")
+			res.Eval(c.canon(), false)
+			return
+		}
 		if dump != nil && c.Class != "size" {
 			b, _ := json.Marshal(map[string]any{"prog": c.Prog, "args": c.Args, "type": c.Type, "test": c.Test, "mut": c.Mut, "class": c.Class,
 				"files": c.Files, "status": o.Status, "stderr": o.Stderr, "stdout": o.Stdout, "panic": o.Panic, "where": o.Where, "kind": o.Kind, "msg": o.Msg, "details": o.Details, "info_bad": infoBad(c), "unclosed_quote": unclosedQuote(c)})
@@ -483,6 +517,18 @@ func runC20(ctx *Ctx) *Result {
 	}()
 	runAll(ch, nw, timeout, sink)
 	res.CountN("selected", nSel)
+	if len(envRetry) > 0 {
+		retrying = true
+		res.CountN("re-run alone after environment trouble", len(envRetry))
+		w := startWorker()
+		for _, c := range envRetry {
+			var o c20Outcome
+			o, w = w.run(c, 6*timeout)
+			sink(c, o)
+		}
+		w.stop()
+	}
+	res.CountN("slice-seed", int(ctx.Seed))
 
 	if bin := buildMissingApprove(ctx, res); bin != "" {
 		for _, c := range wrappers {
